@@ -352,7 +352,37 @@ def do_check(prop, tier, replay, shards_override, budget_override, keep):
                 new.append((v, rp))
             else:
                 flaky.append(v)
+        # directed re-execution of every listed known finding this run did not reach (e.g. it lies deeper than the
+        # quick bound): the finding is reported as KNOWN-FINDING only if it reproduces on the current tree.
+        stale = []
+        if not replay:
+            hit = {v["fingerprint"] for v, _ in knownhits}
+            for k in known:
+                if k.get("property") != prop or k.get("fingerprint") in hit or k.get("replay") is None:
+                    continue
+                h = hashlib.sha1(k["fingerprint"].encode()).hexdigest()[:12]
+                rp = os.path.join(VERIF, "replays", prop, h + ".json")
+                pi = k.get("part", 0)
+                with open(rp, "w") as f:
+                    json.dump({"property": prop, "part": pi, "fingerprint": k["fingerprint"], "detail": k.get("what", ""),
+                               "replay": k["replay"], "tier": tier}, f, indent=1)
+                reps, errs = run_part(parts[pi], binaries[parts[pi]["variant"]], checks, tier, seed, rundir, pi, replay=rp)
+                got = [x for r in reps for x in (r.get("violations") or [])]
+                fps = {x["fingerprint"] for x in got}
+                if k["fingerprint"] in fps:
+                    knownhits.append(({"fingerprint": k["fingerprint"]}, k))
+                else:
+                    stale.append(k["fingerprint"])
+                for x in got:  # anything else the directed run shows is a new violation
+                    if x["fingerprint"] != k["fingerprint"] and not known_match(prop, x["fingerprint"], known) and x["fingerprint"] not in {v["fingerprint"] for v, _ in new}:
+                        h2 = hashlib.sha1(x["fingerprint"].encode()).hexdigest()[:12]
+                        rp2 = os.path.join(VERIF, "replays", prop, h2 + ".json")
+                        with open(rp2, "w") as f:
+                            json.dump({"property": prop, "part": pi, "fingerprint": x["fingerprint"], "detail": x["detail"], "replay": x["replay"], "tier": tier}, f, indent=1)
+                        new.append((x, rp2))
         extra = {"coverage": {"build_s": round(build_s, 1)}}
+        if stale:
+            extra["coverage"]["known_findings_not_reproduced"] = stale
         if flaky:
             m["exhaustive"] = False
             extra["coverage"]["nondeterministic_harness"] = [v["fingerprint"] for v in flaky]
